@@ -39,6 +39,8 @@ pub enum GitOp {
     Analyze { begin: Option<usize>, end: Option<usize> },
     /// run one command for the changed targets
     Run,
+    /// the same with --begin <commit #n>
+    RunFrom { begin: usize },
 }
 
 #[derive(Clone, Debug, Default)]
